@@ -21,6 +21,7 @@ import (
 
 	"github.com/rogpeppe/go-internal/goproxytest"
 	"golang.org/x/mod/module"
+	"golang.org/x/mod/semver"
 	"golang.org/x/tools/txtar"
 	"pgregory.net/rapid"
 
@@ -65,6 +66,8 @@ type proxyCase struct {
 	Absent []string `json:"absent"` // extra request paths (after /mod/) expected to be 404
 	Order  []int    `json:"order"`  // permutation seed for the concurrent phase
 	E2E    bool     `json:"e2e"`
+	// Stray names entries of the served directory that are not module versions (a trailing / makes a directory).
+	Stray []string `json:"stray,omitempty"`
 }
 
 var seq int64
@@ -188,6 +191,16 @@ func checkProxy(c proxyCase) *vt.Fail {
 	stored, ok := materialize(dir, c)
 	if !ok {
 		return nil
+	}
+	for _, n := range c.Stray {
+		if strings.Contains(n, "_v") || strings.ContainsAny(strings.TrimSuffix(n, "/"), "/\\") || n == "" || n == "/" {
+			return nil
+		}
+		if strings.HasSuffix(n, "/") {
+			os.MkdirAll(filepath.Join(dir, n, "inner"), 0o777)
+		} else {
+			os.WriteFile(filepath.Join(dir, n), []byte("not a module\n-- x --\ny\n"), 0o666)
+		}
 	}
 	srv, err := startServer(dir)
 	if err != nil {
@@ -313,6 +326,13 @@ func checkProxy(c proxyCase) *vt.Fail {
 			return nil
 		}})
 	}
+	// anything outside the proxy's URL space is not stored either
+	reqs = append(reqs, req{strings.TrimSuffix(srv.URL, "/mod") + "/other/example.com/a/@v/list", func(r resp) *vt.Fail {
+		if r.Status != 404 {
+			return vt.Failf("absent-not-404", "GET /other/... (outside /mod/) answered %d %q", r.Status, trunc(r.Body))
+		}
+		return nil
+	}})
 	seqResp := make([]resp, len(reqs))
 	for i, rq := range reqs {
 		r, err := get(cl, rq.url)
@@ -473,7 +493,8 @@ func e2e(root, url string, c proxyCase, stored map[string]map[string][]byte) *vt
 	os.MkdirAll(work, 0o777)
 	os.WriteFile(filepath.Join(work, "go.mod"), []byte("module example.com/verifwork\n\ngo 1.21\n"), 0o666)
 	for _, m := range c.Mods {
-		if module.Check(m.Path, m.Version) != nil {
+		if module.Check(m.Path, m.Version) != nil || semver.Canonical(m.Version) != strings.TrimSuffix(m.Version, "+incompatible") {
+			// (the go command treats a shortened version such as v1 as a query, not as a version)
 			continue
 		}
 		cmd := exec.Command(gobin, "mod", "download", "-json", m.Path+"@"+m.Version)
@@ -520,7 +541,7 @@ type pathSpec struct {
 }
 
 var pathPool = []pathSpec{
-	{"example.com/a", []string{"v1.0.0", "v1.2.3-pre", "v0.0.0-20190101000000-abcdef123456", "v1.2.4-0.20190101000000-abcdef123456", "v1.2.3-pre.0.20190101000000-abcdef123456", "v2.0.0+incompatible", "v2.0.0", "v0.1.0"}},
+	{"example.com/a", []string{"v1", "v1.0", "vnext", "v1.0.0", "v1.2.3-pre", "v0.0.0-20190101000000-abcdef123456", "v1.2.4-0.20190101000000-abcdef123456", "v1.2.3-pre.0.20190101000000-abcdef123456", "v2.0.0+incompatible", "v2.0.0", "v0.1.0"}},
 	{"example.com/Foo/Bar", []string{"v1.0.0", "v1.1.0-RC1", "v0.0.0-20200102030405-0123456789ab"}},
 	{"github.com/UPPER/x", []string{"v0.3.0", "v1.0.0"}},
 	{"example.com/v", []string{"v1.0.0", "v0.9.0"}},
@@ -584,6 +605,7 @@ func genProxy(t *rapid.T) proxyCase {
 		c.Absent = append(c.Absent, rapid.SampledFrom(absentPool).Draw(t, "absent"))
 	}
 	c.Order = rapid.SliceOfN(rapid.IntRange(0, 1000), 4, 12).Draw(t, "order")
+	c.Stray = rapid.SliceOfNDistinct(rapid.SampledFrom([]string{"README", "notes.txt", "plain/", "archive.txtar", "example.com_a.txt", ".hidden.txt", "go.mod"}), 0, 3, rapid.ID[string]).Draw(t, "stray")
 	return c
 }
 
